@@ -11,7 +11,7 @@ from lib.coqterm import cbool, cbytes, clist, copt, hx, unhx
 ID = "C49"
 QUICK_N = 1500
 THOROUGH_N = 30000
-SHARD = 125
+SHARD = 130
 RULE = ("Flows of every type the dumper prints (HTTP response/error, WebSocket message/end, TCP/UDP message/error incl. "
         "QUIC labelling, DNS response/error) built with mitmproxy.test.tflow; every attacker-controlled text field "
         "(method, path, http versions, reason, header and trailer names/values, bodies, message contents, close reason, "
@@ -204,6 +204,9 @@ def _unit(rng):
 
 
 def gen(rng, n, tier):
+    # loading the model's .vo files dominates the cost of a small shard: cut the run into 12 shards (one per worker)
+    global SHARD
+    SHARD = max(130, -(-int(n * 1.02) // 12))
     out = []
     for _ in range(n):
         r = rng.random()
